@@ -916,6 +916,9 @@ class Router:
             BasicHeader of the packet; used for remaining LT and RHL (Table 35).
         """
         try:
+            if len(packet) < 28:
+                # SO PV (24 octets) + media-dependent data (4 octets), clause 9.8.4
+                raise DecodeError("SHB extended header must be 28 bytes long")
             long_position_vector = LongPositionVector.decode(packet[0:24])
             packet = packet[24:]
             # Ignore Media Dependant Data
